@@ -321,6 +321,19 @@ func genValidTrain(t *rapid.T, recv string) [][]byte {
 		return [][]byte{append(vp9desc.Build(&c.D), c.Payload...)}
 	case "av1", "av1packet", "av1packet-alias":
 		c := genAV1Case(t)
+		if rapid.IntRange(0, 19).Draw(t, "vav1big") == 0 {
+			// large OBUs (16 KiB+, extension headers included) over a few large packets
+			if c.MTU < 6000 {
+				c.MTU = uint16(rapid.SampledFrom([]int{6000, 16500, 40000, 65535}).Draw(t, "vav1bigmtu"))
+			}
+			k := rapid.IntRange(0, len(c.OBUs)-1).Draw(t, "vav1bigwhich")
+			c.OBUs[k].Size = rapid.SampledFrom([]int{16382, 16383, 16384, 16385, 17000, 65535, 65536, 70000}).Draw(t, "vav1bigsize")
+			if c.OBUs[k].Type == 2 || c.OBUs[k].Type == 8 {
+				c.OBUs[k].Type = 6
+			}
+
+			return (&codecs.AV1Payloader{}).Payload(c.MTU, c.input())
+		}
 		if c.MTU > 60 {
 			c.MTU = uint16(rapid.IntRange(2, 60).Draw(t, "vav1mtu"))
 		}
